@@ -114,7 +114,7 @@ def run(module, cfg=None, workers=16, timeout=900, env=None, simulate=None, dept
     shutil.rmtree(meta, ignore_errors=True)
     if rc == 0 and not res.violated:
         res.ok = True
-    elif res.violated and rc in (12, 13, 0):
+    elif res.violated and rc in (12, 13, 0, 151):
         res.ok = True   # the run itself worked; the caller decides what a violation means
     elif res.error is None:
         tail = '\n'.join(out.strip().splitlines()[-15:])
@@ -150,6 +150,11 @@ def parse_output(res, out):
             continue
         m = _RE_INV.search(s)
         if m:
+            res.violated.append(m.group(1))
+            continue
+        m = re.search(r'The invariant of (\S+) is equal to FALSE', s)
+        if m:
+            # an invariant that mentions no variable is evaluated once, before the search (exit status 151)
             res.violated.append(m.group(1))
             continue
         if 'is violated' in s or 'was violated' in s:
